@@ -35,6 +35,16 @@ fn main() {
                             Ok(goal) => {
                                 use chalk_solve::ext::GoalExt;
                                 let peeled = goal.into_peeled_goal(chalk_integration::interner::ChalkIr);
+                                if drive::solver_name(&choice) == "slg" {
+                                    // through the concrete type so that the table dump (hook H4) can be shown
+                                    let db = drive::FaultDb::new(&*l.program, "slg");
+                                    let mut s = chalk_engine::solve::SLGSolver::<drive::I>::new(10, None);
+                                    let o = drive::solve(&mut s, &db, &peeled);
+                                    println!("slg: {} => {} (callbacks {}, nonground-coinductive {})", g, o.show(), db.calls.get(), db.nonground_coinductive.get());
+                                    let t = s.verif_tables();
+                                    println!("  tables {} | answers {} | answers with delayed subgoals {} | max answers in one table {} | tables with subsumed answers {}", t.len(), t.iter().map(|x| x.answers).sum::<usize>(), t.iter().map(|x| x.answers_with_delayed_subgoals).sum::<usize>(), t.iter().map(|x| x.answers).max().unwrap_or(0), s.verif_tables_with_subsumed_answers(chalk_integration::interner::ChalkIr));
+                                    continue;
+                                }
                                 let (o, calls, flag) = drive::fresh_solve(&l, choice, &peeled);
                                 println!("{}: {} => {} (callbacks {}, nonground-coinductive {})", drive::solver_name(&choice), g, o.show(), calls, flag);
                             }
